@@ -213,4 +213,292 @@ theorem OHG.isMonogamous_closed (f : OHG O A) (hw : f.Wf) :
       simp only [Bool.and_eq_true, decide_eq_true_eq, zipWith_add_counts_eq_ones]
       simp [n1, n2]
 
+
+/-! ### `gather` against a given list -/
+
+/-- a list equals the gather of `xs` along in-range indices iff it has the length of the index
+    list and agrees with `xs ∘ idx` position by position -/
+theorem eq_gatherP_iff {α : Type} (xs ys : List α) (idx : List Nat) (h : ∀ i ∈ idx, i < xs.length) :
+    ys = Prim.gatherP xs idx ↔
+      idx.length = ys.length ∧ ∀ i, i < ys.length → xs[idx.getD i 0]? = ys[i]? := by
+  have hmap := Prim.gatherP_eq_map xs idx h
+  have hinj : ys = Prim.gatherP xs idx ↔ ys.map some = idx.map (fun i => xs[i]?) := by
+    rw [← hmap]
+    exact ⟨fun e => by rw [e], fun e => (List.map_inj_right (fun x y hxy => Option.some.inj hxy)).1 e⟩
+  rw [hinj]
+  constructor
+  · intro e
+    have hl : idx.length = ys.length := by simpa using (congrArg List.length e).symm
+    refine ⟨hl, fun i hi => ?_⟩
+    have := congrArg (fun l => l[i]?) e
+    have hi' : i < idx.length := by omega
+    simp only [List.getElem?_map, List.getElem?_eq_getElem hi, List.getElem?_eq_getElem hi',
+      Option.map_some, Option.some.injEq] at this
+    simp [List.getD_eq_getElem?_getD, List.getElem?_eq_getElem hi', ← this,
+      List.getElem?_eq_getElem hi]
+  · rintro ⟨hl, hp⟩
+    apply List.ext_getElem?
+    intro i
+    by_cases hi : i < ys.length
+    · have hi' : i < idx.length := by omega
+      have := hp i hi
+      simp only [List.getD_eq_getElem?_getD, List.getElem?_eq_getElem hi', Option.getD_some] at this
+      simp [List.getElem?_eq_getElem hi', this, List.getElem?_eq_getElem hi]
+    · have hi' : ¬ i < idx.length := by omega
+      simp [List.getElem?_eq_none (Nat.le_of_not_lt hi), List.getElem?_eq_none (Nat.le_of_not_lt hi')]
+
+/-! ### naturality of a segmented array along a pair of maps -/
+
+/-- list-of-lists form of `map_values c w = map_indexes d x` -/
+theorem IC.natural_iff (c d : IC FinFun) (w : Nat → Nat) (xt : List Nat) (wt : Nat)
+    (hc : c.valid = true) (hd : d.valid = true) (hwt : wt = d.values.target) :
+    (⟨c.sources, ⟨c.values.table.map w, wt⟩⟩ : IC FinFun) =
+        ⟨⟨xt.map (fun j => d.sources.table.getD j 0),
+            (xt.flatMap (fun j => d.segs.getD j [])).length + 1⟩,
+          ⟨xt.flatMap (fun j => d.segs.getD j []), d.values.target⟩⟩ ↔
+      c.segs.map (·.map w) = xt.map (fun j => d.segs.getD j []) := by
+  have hc1 := ((IC.valid_iff c).1 hc).1
+  have hc2 := ((IC.valid_iff c).1 hc).2
+  have hd2 := ((IC.valid_iff d).1 hd).2
+  simp only [IC.len_finfun] at hc2 hd2
+  have hsizes : xt.map (fun j => d.sources.table.getD j 0) =
+      (xt.map (fun j => d.segs.getD j [])).map List.length := by
+    rw [List.map_map]
+    apply List.map_congr_left
+    intro j _
+    simp only [Function.comp, IC.segs, splitSegs_getD_length _ _ (Nat.le_of_eq hd2)]
+  have hflat : xt.flatMap (fun j => d.segs.getD j []) =
+      (xt.map (fun j => d.segs.getD j [])).flatten := by
+    rw [List.flatMap_def]
+  constructor
+  · intro e
+    have e1 : c.sources.table = xt.map (fun j => d.sources.table.getD j 0) := by
+      have := congrArg (fun (i : IC FinFun) => i.sources.table) e
+      exact this
+    have e2 : c.values.table.map w = xt.flatMap (fun j => d.segs.getD j []) := by
+      have := congrArg (fun (i : IC FinFun) => i.values.table) e
+      exact this
+    rw [IC.segs, ← splitSegs_map, e1, e2, hsizes, hflat]
+    exact splitSegs_map_length_flatten _
+  · intro e
+    have e1 : c.sources.table = xt.map (fun j => d.sources.table.getD j 0) := by
+      rw [hsizes, ← e, ← IC.segs_map_length c hc, List.map_map]
+      apply List.map_congr_left
+      intro l _
+      simp
+    have e2 : c.values.table.map w = xt.flatMap (fun j => d.segs.getD j []) := by
+      rw [hflat, ← e, ← List.map_flatten, IC.segs_flatten c hc]
+    have e3 : c.sources.target = (xt.flatMap (fun j => d.segs.getD j [])).length + 1 := by
+      rw [← e2, hc1, hc2]; simp
+    obtain ⟨⟨st, tg⟩, ⟨vt, vg⟩⟩ := c
+    simp only at e1 e2 e3 ⊢
+    subst e1 e3 hwt
+    rw [e2]
+
+/-- pointwise form of the list-of-lists equation -/
+theorem segs_natural_pointwise (L M : List (List Nat)) (w : Nat → Nat) (xt : List Nat)
+    (hlen : L.length = xt.length) (hx : ∀ j ∈ xt, j < M.length) :
+    L.map (·.map w) = xt.map (fun j => M.getD j []) ↔
+      ∀ e, e < xt.length → M[xt.getD e 0]? = (L[e]?).map (·.map w) := by
+  constructor
+  · intro h e he
+    have := congrArg (fun l => l[e]?) h
+    simp only [List.getElem?_map, List.getElem?_eq_getElem he, Option.map_some] at this
+    have hj : xt[e] < M.length := hx _ (List.getElem_mem he)
+    simp only [List.getD_eq_getElem?_getD, List.getElem?_eq_getElem he, Option.getD_some,
+      List.getElem?_eq_getElem hj] at this ⊢
+    exact this.symm
+  · intro h
+    apply List.ext_getElem?
+    intro e
+    by_cases he : e < xt.length
+    · have := h e he
+      have hj : xt[e] < M.length := hx _ (List.getElem_mem he)
+      simp only [List.getD_eq_getElem?_getD, List.getElem?_eq_getElem he, Option.getD_some,
+        List.getElem?_eq_getElem hj] at this
+      simp only [List.getElem?_map, List.getElem?_eq_getElem he, Option.map_some,
+        List.getD_eq_getElem?_getD, List.getElem?_eq_getElem hj, Option.getD_some]
+      exact this.symm
+    · have he' : ¬ e < L.length := by omega
+      simp [List.getElem?_eq_none (Nat.le_of_not_lt he), List.getElem?_eq_none (Nat.le_of_not_lt he')]
+
+
+/-! ### hypergraph morphisms: the conditions `validate` checks -/
+
+namespace Graph.HArrow
+
+variable (m : HArrow O A)
+
+/-- the node map / edge map as total functions (value `0` outside the table) -/
+def wFn (i : Nat) : Nat := m.w.table.getD i 0
+def xFn (e : Nat) : Nat := m.x.table.getD e 0
+
+/-- hypotheses: both hypergraphs deeply well-formed, both tables below their stated codomain -/
+structure Wf : Prop where
+  source : m.source.Wf
+  target : m.target.Wf
+  w : m.w.WF
+  x : m.x.WF
+
+/-- `TypeMismatchW` names: the node map's codomain is not the target's node count -/
+def TypedW : Prop := m.w.target = m.target.w.length
+/-- `NotNaturalW` names: the node map has one entry per source node and preserves labels -/
+def NatW : Prop := m.w.source = m.source.w.length ∧
+  ∀ i, i < m.source.w.length → m.target.w[m.wFn i]? = m.source.w[i]?
+def TypedX : Prop := m.x.target = m.target.x.length
+def NatX : Prop := m.x.source = m.source.x.length ∧
+  ∀ e, e < m.source.x.length → m.target.x[m.xFn e]? = m.source.x[e]?
+/-- `NotNaturalS` names: the ordered source list of every edge is sent elementwise onto that of
+    its image -/
+def NatS : Prop := ∀ e, e < m.source.x.length →
+  m.target.s.segs[m.xFn e]? = (m.source.s.segs[e]?).map (·.map m.wFn)
+def NatT : Prop := ∀ e, e < m.source.x.length →
+  m.target.t.segs[m.xFn e]? = (m.source.t.segs[e]?).map (·.map m.wFn)
+
+variable {m}
+
+theorem composeSemi_w (hw : m.Wf) (ht : m.TypedW) :
+    FinFun.composeSemi m.w m.target.w = .ok (Prim.gatherP m.target.w m.w.table) :=
+  FinFun.composeSemi_ok _ _ hw.w ht
+
+theorem composeSemi_x (hw : m.Wf) (ht : m.TypedX) :
+    FinFun.composeSemi m.x m.target.x = .ok (Prim.gatherP m.target.x m.x.table) :=
+  FinFun.composeSemi_ok _ _ hw.x ht
+
+theorem natW_iff (hw : m.Wf) (ht : m.TypedW) :
+    m.source.w = Prim.gatherP m.target.w m.w.table ↔ m.NatW :=
+  eq_gatherP_iff _ _ _ (fun i hi => ht ▸ hw.w i hi)
+
+theorem natX_iff (hw : m.Wf) (ht : m.TypedX) :
+    m.source.x = Prim.gatherP m.target.x m.x.table ↔ m.NatX :=
+  eq_gatherP_iff _ _ _ (fun i hi => ht ▸ hw.x i hi)
+
+/-- one incidence check (`c` an incidence array of the source, `d` the corresponding one of the
+    target) -/
+theorem incidence_step (c d : IC FinFun) (hc : c.Wf) (hd : d.Wf)
+    (hct : c.values.target = m.w.source) (hdt : m.w.target = d.values.target)
+    (hxw : m.x.WF) (hxt : m.x.target = d.len) (hlen : c.len = m.x.source) :
+    ∃ sl sr, IC.mapValues c m.w = .ok sl ∧ IC.mapIndexes d m.x = .ok sr ∧
+      (sl = sr ↔ ∀ e, e < m.x.source → d.segs[m.xFn e]? = (c.segs[e]?).map (·.map m.wFn)) := by
+  refine ⟨_, _, IC.mapValues_eq c m.w hc.values hct, IC.mapIndexes_eq d m.x hd.valid hxw hxt, ?_⟩
+  refine (IC.natural_iff c d m.wFn m.x.table m.w.target hc.valid hd.valid hdt).trans ?_
+  refine (segs_natural_pointwise _ _ _ _ ?_ ?_).trans Iff.rfl
+  · rw [IC.segs_length]; exact hlen
+  · intro j hj
+    rw [IC.segs_length, ← hxt]; exact hxw j hj
+
+variable (m)
+
+open Classical in
+/-- the verdict of `validate` as a cascade of the named conditions -/
+noncomputable def verdict : Except ArrowErr Unit :=
+  if ¬ m.TypedW then .error .typeMismatchW
+  else if ¬ m.NatW then .error .notNaturalW
+  else if ¬ m.TypedX then .error .typeMismatchX
+  else if ¬ m.NatX then .error .notNaturalX
+  else if ¬ m.NatS then .error .notNaturalS
+  else if ¬ m.NatT then .error .notNaturalT
+  else .ok ()
+
+variable {m}
+
+theorem validate_eq [DecidableEq O] [DecidableEq A] (hw : m.Wf) :
+    m.validate = .ok m.verdict := by
+  unfold validate verdict
+  dsimp only
+  by_cases h1 : m.TypedW
+  case neg =>
+    have : FinFun.composeSemi m.w m.target.w = .none := by
+      simp only [FinFun.composeSemi]; exact if_neg h1
+    simp [this, okOr, h1]
+  rw [composeSemi_w hw h1]
+  by_cases h2 : m.NatW
+  case neg =>
+    have : m.source.w ≠ Prim.gatherP m.target.w m.w.table := fun e => h2 ((natW_iff hw h1).1 e)
+    simp [okOr, h1, h2, this]
+  have e2 := (natW_iff hw h1).2 h2
+  by_cases h3 : m.TypedX
+  case neg =>
+    have : FinFun.composeSemi m.x m.target.x = .none := by
+      simp only [FinFun.composeSemi]; exact if_neg h3
+    simp [this, okOr, h1, h2, h3, e2]
+  rw [composeSemi_x hw h3]
+  by_cases h4 : m.NatX
+  case neg =>
+    have : m.source.x ≠ Prim.gatherP m.target.x m.x.table := fun e => h4 ((natX_iff hw h3).1 e)
+    simp [okOr, h1, h2, h3, h4, this, e2]
+  have e4 := (natX_iff hw h3).2 h4
+  obtain ⟨sl, sr, hsl, hsr, hs⟩ := incidence_step (m := m) m.source.s m.target.s hw.source.s
+    hw.target.s (by rw [hw.source.stgt, h2.1]) (by rw [h1, hw.target.stgt]) hw.x
+    (by rw [h3, hw.target.slen]) (by rw [hw.source.slen, h4.1])
+  obtain ⟨tl, tr, htl, htr, ht⟩ := incidence_step (m := m) m.source.t m.target.t hw.source.t
+    hw.target.t (by rw [hw.source.ttgt, h2.1]) (by rw [h1, hw.target.ttgt]) hw.x
+    (by rw [h3, hw.target.tlen]) (by rw [hw.source.tlen, h4.1])
+  rw [h4.1] at hs ht
+  have hs' : sl = sr ↔ m.NatS := hs
+  have ht' : tl = tr ↔ m.NatT := ht
+  rw [hsl, hsr, htl, htr]
+  by_cases h5 : m.NatS
+  case neg =>
+    have : sl ≠ sr := fun e => h5 (hs'.1 e)
+    simp [okOr, h1, h2, h3, h4, h5, this, e2, e4]
+  have e5 := hs'.2 h5
+  by_cases h6 : m.NatT
+  · have e6 := ht'.2 h6
+    simp [okOr, h1, h2, h3, h4, h5, h6, e2, e4, e5, e6]
+  · have : tl ≠ tr := fun e => h6 (ht'.1 e)
+    simp [okOr, h1, h2, h3, h4, h5, h6, this, e2, e4, e5]
+
+end Graph.HArrow
+
+
+/-! ### the plain-diagram reading of the named conditions -/
+
+theorem HG.toPlainEdges_getElem?_eq_some (h : HG O A) (e : Nat) (p : PEdge A) :
+    h.toPlainEdges[e]? = some p ↔
+      h.x[e]? = some p.label ∧ h.s.segs[e]? = some p.src ∧ h.t.segs[e]? = some p.tgt := by
+  rw [HG.toPlainEdges_getElem?]
+  obtain ⟨l, s, t⟩ := p
+  cases h.x[e]? <;> cases h.s.segs[e]? <;> cases h.t.segs[e]? <;> simp
+
+namespace Graph.HArrow
+
+variable {m : HArrow O A}
+
+/-- `IsMorphism` between the plain diagrams of source and target is exactly the conjunction of
+    the four pointwise conditions -/
+theorem isMorphism_iff (hw : m.Wf) :
+    IsMorphism ⟨m.source.w, m.source.toPlainEdges, [], []⟩ ⟨m.target.w, m.target.toPlainEdges, [], []⟩
+        m.wFn m.xFn ↔
+      (∀ i, i < m.source.w.length → m.target.w[m.wFn i]? = m.source.w[i]?) ∧
+      (∀ e, e < m.source.x.length → m.target.x[m.xFn e]? = m.source.x[e]?) ∧ m.NatS ∧ m.NatT := by
+  unfold IsMorphism NatS NatT
+  simp only [HG.toPlainEdges_length _ hw.source]
+  have hs : ∀ e, e < m.source.x.length → e < m.source.s.segs.length := fun e he => by
+    rw [IC.segs_length, hw.source.slen]; exact he
+  have ht : ∀ e, e < m.source.x.length → e < m.source.t.segs.length := fun e he => by
+    rw [IC.segs_length, hw.source.tlen]; exact he
+  constructor
+  · rintro ⟨hn, he⟩
+    refine ⟨hn, fun e hlt => ?_, fun e hlt => ?_, fun e hlt => ?_⟩ <;>
+      obtain ⟨ge, he', h1, h2, h3, h4, h5⟩ := he e hlt <;>
+      rw [HG.toPlainEdges_getElem?_eq_some] at h1 h2
+    · rw [h2.1, h1.1, h3]
+    · rw [h2.2.1, h1.2.1, h4]; rfl
+    · rw [h2.2.2, h1.2.2, h5]; rfl
+  · rintro ⟨hn, hx, hS, hT⟩
+    refine ⟨hn, fun e hlt => ?_⟩
+    refine ⟨⟨m.source.x[e], m.source.s.segs[e]'(hs e hlt), m.source.t.segs[e]'(ht e hlt)⟩,
+      ⟨m.source.x[e], (m.source.s.segs[e]'(hs e hlt)).map m.wFn,
+        (m.source.t.segs[e]'(ht e hlt)).map m.wFn⟩, ?_, ?_, rfl, rfl, rfl⟩
+    · rw [HG.toPlainEdges_getElem?_eq_some]
+      exact ⟨List.getElem?_eq_getElem hlt, List.getElem?_eq_getElem _, List.getElem?_eq_getElem _⟩
+    · rw [HG.toPlainEdges_getElem?_eq_some]
+      refine ⟨?_, ?_, ?_⟩
+      · rw [hx e hlt, List.getElem?_eq_getElem hlt]
+      · rw [hS e hlt, List.getElem?_eq_getElem (hs e hlt)]; rfl
+      · rw [hT e hlt, List.getElem?_eq_getElem (ht e hlt)]; rfl
+
+end Graph.HArrow
+
 end OH
